@@ -171,6 +171,14 @@ func (r *kmRun) float() {
 			vs[i][j] = float32(rng.NormFloat64() * 3)
 		}
 	}
+	if metric != "cosine" && rng.Intn(6) == 0 { // the same data at a tiny (or a huge) scale: nothing in the algorithm is absolute
+		f := float32(math.Pow(2, float64([]int{-24, -30, -40, 20}[rng.Intn(4)])))
+		for i := range vs {
+			for j := range vs[i] {
+				vs[i][j] *= f
+			}
+		}
+	}
 	if metric == "cosine" { // the cosine distance of the library works on unit vectors
 		for i := range vs {
 			nrm := 0.0
@@ -222,14 +230,14 @@ func (r *kmRun) float() {
 		dflt = reflect.DeepEqual(c1, c4) && reflect.DeepEqual(a1, a4)
 	}
 	// reference tables
-	mx := 1.0
+	mx := 0.0
 	for _, v := range vs {
 		for _, x := range v {
 			mx = math.Max(mx, math.Abs(float64(x)))
 		}
 	}
 	dtab := make([][]float64, n)
-	md := 1.0
+	md := 0.0
 	for i := range vs {
 		dtab[i] = make([]float64, len(c1))
 		for c := range c1 {
@@ -241,11 +249,21 @@ func (r *kmRun) float() {
 			}
 		}
 	}
-	scale := 1e6
-	for scale > 10 && math.Max(mx, md)*scale*4 > 1.9e9 {
-		scale /= 10
+	// fixed point: the largest value of the tables lands between 4.7e7 and 4.7e8 whatever the magnitude of the data
+	// (coordinates and distances each on their own scale: under l2_squared they differ by orders of magnitude on tiny or huge data)
+	if mx == 0 {
+		mx = 1
 	}
-	eps := int64(math.Ceil(scale*4*float64(dim+n)*math.Pow(2, -24)*math.Max(mx*mx, md))) + 2
+	if md == 0 {
+		md = mx
+	}
+	scale := math.Pow(10, math.Floor(math.Log10(1.9e9/(4*mx))))
+	// what float32 can resolve in a distance: relative to the operands, not to the (possibly cancelled) result
+	errBase := map[string]float64{"l2": mx, "l2_squared": mx * mx, "cosine": 1}[metric]
+	errBase = math.Max(errBase, md)
+	scaleD := math.Pow(10, math.Floor(math.Log10(1.9e9/(4*errBase))))
+	eps := int64(math.Ceil(scaleD*4*float64(dim+n)*math.Pow(2, -24)*errBase)) + 2
+	epsb := int64(math.Ceil(scale*4*float64(n+1)*math.Pow(2, -24)*mx)) + 2
 	lo, hi := make([]int64, dim), make([]int64, dim)
 	for j := 0; j < dim; j++ {
 		l, h := math.Inf(1), math.Inf(-1)
@@ -261,11 +279,11 @@ func (r *kmRun) float() {
 	for i := range dtab {
 		dfix[i] = make([]int64, len(dtab[i]))
 		for c := range dtab[i] {
-			dfix[i][c] = fx(dtab[i][c], scale)
+			dfix[i][c] = fx(dtab[i][c], scaleD)
 		}
 	}
 	r.t.ev("final", E{"n": n, "k": k, "mi": mi, "metric": metric, "dim": dim, "cent": fxTable(c1, scale), "asg": nzInts(a1), "conv": conv && !panicked,
-		"again": reflect.DeepEqual(c1, c2) && reflect.DeepEqual(a1, a2) && !panicked, "inputSame": inputSame, "dflt": dflt, "lo": lo, "hi": hi, "dist": dfix, "eps": eps})
+		"again": reflect.DeepEqual(c1, c2) && reflect.DeepEqual(a1, a2) && !panicked, "inputSame": inputSame, "dflt": dflt, "lo": lo, "hi": hi, "dist": dfix, "eps": eps, "epsb": epsb})
 }
 
 // twice: training two indexes on the same data gives search-identical indexes
@@ -347,6 +365,9 @@ func (r *kmRun) quant() {
 	}
 	if typ == "int8" {
 		s = 10
+		if rng.Intn(5) == 0 {
+			s = 140 // values around 1e-37: still normal float32 numbers, the trained range is tiny
+		}
 	}
 	n := rng.Intn(9)
 	xi := make([]int64, n)
@@ -391,14 +412,14 @@ func (r *kmRun) quant() {
 			q.Train([][]float32{{float32(rng.Intn(40)) + 0.5}})
 		}
 		absmax = 100*1024 + rng.Int63n(20*1024)
-		q.(*comet.Int8Quantizer).SetAbsMax(float32(float64(absmax) / 1024))
+		q.(*comet.Int8Quantizer).SetAbsMax(float32(float64(absmax) / math.Pow(2, float64(s))))
 	} else if typ == "int8" {
 		trained = rng.Intn(6) != 0
 		if trained {
-			extra := []float32{float32(float64(rng.Int63n(100*1024)) / 1024), -0.5}
+			extra := []float32{float32(float64(rng.Int63n(100*1024)) / math.Pow(2, float64(s))), float32(-512 / math.Pow(2, float64(s)))}
 			q.Train([][]float32{cp(x), extra})
 			for _, v := range append(cp(x), extra...) {
-				if a := int64(math.Round(math.Abs(float64(v)) * 1024)); a > absmax {
+				if a := int64(math.Round(math.Abs(float64(v)) * math.Pow(2, float64(s)))); a > absmax {
 					absmax = a
 				}
 			}
